@@ -9,6 +9,7 @@ from typing import Callable, Dict, Iterable, List, Optional, Sequence, Tuple
 from .gram import ActSpec, B, C, Grammar, N, P, Ref, T, X, STATE, FAM
 
 A_, B_, C_ = 97, 98, 99   # 'a' 'b' 'c'
+ROM_ENABLED = True        # contrib rep_one_min_max in the corpus (needs the model's repOne atom)
 
 # ---------------------------------------------------------------- probes: sub-rules with a known behaviour class
 # each probe: (name, class, builder(g) -> type expression)
@@ -36,6 +37,11 @@ def probes(raisers: bool = True, heavy: bool = False):
             ('eof', 'nullable', lambda g: P('eof')),
             ('fail', 'atom', lambda g: P('failure')),
         ]
+        if ROM_ENABLED:
+            ps += [
+                ('rom12', 'consume-then-fail', lambda g: P('rep_one_min_max', N(1), N(2), C(A_))),
+                ('rom02', 'nullable', lambda g: P('rep_one_min_max', N(0), N(2), C(A_))),
+            ]
     return ps
 
 
@@ -261,6 +267,8 @@ class RandGen:
     def atom(self, consuming: bool):
         r = self.rng
         opts = ['one', 'one', 'one', 'string', 'range', 'any', 'not_one']
+        if ROM_ENABLED:
+            opts += ['rom', 'pred']
         if self.eol_atoms:
             opts += ['eol', 'eol', 'any', 'bytes']
             if not consuming:
@@ -278,6 +286,19 @@ class RandGen:
             return P('range', C(A_), C(r.choice([B_, C_])))
         if k == 'bytes':
             return P('bytes', N(r.choice([1, 2])))
+        if k == 'pred':
+            subs = []
+            for _ in range(r.choice([1, 2, 2, 3])):
+                q = r.choice(['one', 'not_one', 'range', 'not_range'])
+                if q in ('one', 'not_one'):
+                    subs.append(P(q, *[C(c) for c in r.sample(self.alpha + [120], r.choice([1, 2]))]))
+                else:
+                    subs.append(P(q, C(A_), C(r.choice([B_, C_, 122]))))
+            op = r.choice(['predicates_and', 'predicates_or', 'predicate_not'])
+            return P(op, subs[0]) if op == 'predicate_not' else P(op, *subs)
+        if k == 'rom':
+            lo = r.choice([1, 1, 2]) if consuming else r.choice([0, 1, 2])
+            return P('rep_one_min_max', N(lo), N(lo + r.choice([0, 1, 2])), C(r.choice(self.alpha)))
         return P(k)
 
     def expr(self, g: Grammar, refs: List[Ref], idx: int, depth: int, consuming: bool, guarded: bool):
@@ -389,7 +410,7 @@ class RandGen:
 
 
 def attach_actions(rng: random.Random, g: Grammar, mode: str):
-    """mode: none | void | bool | throw | switch.  Attach to ~half of the controlled nodes.
+    """mode: none | void | bool | throw | throwmany | switch | states.  Attach to ~half of the controlled nodes.
     switch: bool-style actions plus disable_action / enable_action / change_action< family 1 > bases, and a second action family."""
     g.acts.clear()
     g.fams.clear()
@@ -448,6 +469,12 @@ def attach_actions(rng: random.Random, g: Grammar, mode: str):
         elif mode == 'bool':
             if rng.random() < 0.5:
                 g.acts[nid] = ActSpec(kind, True, rng.choice([2, 3, 3, 5]))
+            else:
+                g.acts[nid] = ActSpec(kind)
+        elif mode == 'throwmany':
+            # most rules throw on some spans (std and non-std), so that every try_catch variant sees foreign exceptions from inside
+            if rng.random() < 0.75:
+                g.acts[nid] = ActSpec(kind, False, 0, rng.choice([2, 2, 3]), rng.random() < 0.5)
             else:
                 g.acts[nid] = ActSpec(kind)
         elif mode == 'throw':
